@@ -125,7 +125,7 @@ def gen_cases(spec, rnd, quick, E=5):
                 add('repeat', e1=a, n=rnd.randrange(min(order, 12)), variant='fld_sec_base', **({'timeout': 90.0} if spec[0] == 'Cl' else {}))
             add('repeat', e1=a, n=-rnd.randrange(1, 5), variant='fld_pub_base_neg')
         if spec[0] == 'Cl':
-            if G.bit_length <= 8 or not quick:
+            if G.bit_length <= 8:        # (secret base and secret exponent: minutes per case for larger discriminants)
                 add('repeat', e1=a, n=rnd.randint(0, 6), variant='int_sec_base', timeout=90.0)
             add('repeat', e1=a, n=rnd.randint(-4, 6), variant='int_pub_base')
             add('repeat', e1=a, n=rnd.randint(-4, 6), variant='int_public')
